@@ -99,6 +99,9 @@ func vC03Prog[T vScalar]() {
 	wantP, shapeP := want, vCopyInts(shape) // logical content/shape at the last physical state
 	// known finding: physically transposing a column-major tensor moves the data in row-major iteration order
 	kfColX := false
+	// known finding (C20): the in-place transposition build panics (transposeIndex: ItoL failure) when the tensor's
+	// strides before the move are not canonical row-major strides (sliced views and their clones, column-major tensors)
+	kfInpl := vHasTag("inplacetranspose") && (base == "S" || base == "F")
 	nT := 0
 	for _, op := range prog {
 		switch op {
@@ -112,13 +115,13 @@ func vC03Prog[T vScalar]() {
 				pan = vCatch(func() { err = t.T(sp...) })
 				p = vConcAxes(sp)
 				if pan {
-					vAssert(!vIsPerm(p, rank), "T-no-panic") // only permutations are inside the statement
+					vAssertKF(!vIsPerm(p, rank), "T-no-panic", "KF-C20-inplace-noncanonical", kfInpl && lazy) // only permutations are inside the statement
 					vReach("C03.Prog")
 					return
 				}
 			} else {
 				pan = vCatch(func() { err = t.T() })
-				vAssert(!pan, "T-no-panic")
+				vAssertKF(!pan, "T-no-panic", "KF-C20-inplace-noncanonical", kfInpl && lazy)
 				if pan {
 					return
 				}
@@ -179,7 +182,7 @@ func vC03Prog[T vScalar]() {
 			}
 			var err error
 			pan := vCatch(func() { err = t.Transpose() })
-			vAssertKF(vAnd(!pan, err == nil), "Transpose-ok", "KF-C03-colmajorX", kfColX)
+			vAssertKF2(vAnd(!pan, err == nil), "Transpose-ok", "KF-C03-colmajorX", kfColX, "KF-C20-inplace-noncanonical", kfInpl && lazy)
 			if pan || err != nil {
 				return
 			}
